@@ -181,10 +181,15 @@ def run(chk, rules=None, as_prop=None):
                "columns keep their window / aggregate function type across a subquery marker")  # fmt: skip
 
 
-    try:
-        _g2()
-    except _Unsl as e:
-        chk.undecided.append(f"G2: {str(e)[:200]}")
+    if typestate_decided:
+        # what the cache records (and resets at a subquery marker) is decided on the interpreted Cache by the exploration G9:
+        # a clause that is not recorded shows as a missed hazard, a state that is not reset as a refused fitting verb
+        chk.ok("G2", cache, cache.func("Cache.update"), "clause recording / marker reset: decided by the typestate exploration (G9)")
+    else:
+        try:
+            _g2()
+        except _Unsl as e:
+            chk.undecided.append(f"G2: {str(e)[:200]}")
 
     # ---- G8 the state atom WINDOWED is only as good as ftype(): every child must contribute
     n8 = 0
